@@ -5,4 +5,7 @@ PROP = "C03"
 
 
 def main():
-    return G.main(PROP, dict(trusted=G.COMMON_TRUSTED, assumptions=G.COMMON_ASSUMPTIONS))
+    return G.main(PROP, dict(verus_units=[("renumber_state", 6)],
+                             trusted=G.COMMON_TRUSTED + ["Verus unit renumber_state: assumed spec of [T]::binary_search; derive(Ord) on the one-field StateIdx orders by the field (axiom); "
+                                                         "that CgCtx::new builds a strictly increasing inlined_states vector is an iterator chain and is NOT verified (precondition)"],
+                             assumptions=G.COMMON_ASSUMPTIONS))
